@@ -71,7 +71,8 @@ def main():
             "add_only": True,
         },
         "engines": [
-            {"name": "cxcheck", "path": "/verif/harness", "serves_properties": sorted(CHECKS), "kind_free_text": "proptest-driven stateful generator + fork-per-case executor on a fixed-address guard-page arena + online reference model/judge"},
+            {"name": "cxcheck", "path": "/verif/harness", "serves_properties": sorted(CHECKS), "kind_free_text": "proptest-driven stateful generator + fork-per-case executor on a fixed-address guard-page arena + online reference model/judge; thorough tier adds an exhaustive small-scope sweep (C01-C06, C08) and workers on a plain release profile"},
+            {"name": "cxfuzz", "path": "/verif/fuzz", "serves_properties": ["C01", "C02", "C03", "C05", "C06", "C08", "C10", "C12"], "kind_free_text": "cargo-fuzz / libFuzzer + AddressSanitizer target driving the same interpreter, model and judge in-process (thorough tier, -runs bounded); every artifact is re-judged by cxcheck before it is reported"},
         ],
         "checks": checks,
         "not_applicable": na,
